@@ -66,6 +66,17 @@ def build(rng, tier):
         inst = f"yjoin_{j}"
         ops = [f"eng new {inst} yjoin par {a}"] + engcheck.load_ops(inst, jinp) + [f"eng runin {inst} {b}", f"eng dump {inst}", f"eng runin {inst} {b}", f"eng dump {inst}"]
         cases.append(engcheck.Case("yjoin", inst, ops, {"inp": jinp, "union": jinp, "kind": "pools-join-stress", "abc": (a, b, b), "no_model": True}))
+    # (1e) a lattice with many keys, every key derived several times in ONE iteration: whatever serialises the check-then-insert of a new lattice key must be
+    # decided by the pool that RUNS the program, not by the one it was constructed in (one row per key, holding the maximum)
+    lat = {"rels": [{"arity": 2}, {"arity": 2, "lat": "max"}],
+           "rules": [{"heads": [(1, [("var", 0), ("var", 1)])], "body": [("cl", 0, [("v", 0), ("v", 1)], [])]}]}
+    progs["ylat"] = lat; PROGS["ylat"] = lat
+    mods.append(("ylat", eng.rs_module("ylat", lat, macro="ascent_par")))
+    linp = {0: [(k, (k * 7 + 13 * v) % 101 + 200 * v) for v in range(4) for k in range(5000)]}
+    for j, (a, b) in enumerate([(1, 8), (1, 16), (1, 4), (2, 8), (8, 8), (1, 8), (1, 16)] if tier == "quick" else [(a, b) for a in (1, 1, 1, 2, 8) for b in (2, 3, 4, 8, 16)]):
+        inst = f"ylat_{j}"
+        ops = [f"eng new {inst} ylat par {a}"] + engcheck.load_ops(inst, linp) + [f"eng runin {inst} {b}", f"eng dump {inst}", f"eng runin {inst} {b}", f"eng dump {inst}"]
+        cases.append(engcheck.Case("ylat", inst, ops, {"inp": linp, "union": linp, "kind": "pools-lattice-stress", "abc": (a, b, b), "no_model": True}))
     # (1d) programs that generate their own data (no loads), used by the fresh-process step `fresh_process_step` below
     outer = {"rels": [{"arity": 1}, {"arity": 2}, {"arity": 2}, {"arity": 1}, {"arity": 2}],
              "rules": [{"heads": [(0, [("var", 0)])], "body": [("for", 0, ("range", 0, 70))]},
@@ -90,6 +101,7 @@ def build(rng, tier):
         for m in range(k):
             pid = pids[0] if (m < 2 and g % 2 == 0) else r2.choice(pids)     # even groups: two instances of the SAME type
             inp = gen.nodup_input(r2, progs[pid], max_rows=8)
+            inp = {r: rows for r, rows in inp.items() if not progs[pid]["rels"][r].get("lat")}      # lattice relations are derived, never loaded (one row per key)
             members.append((f"g{g}_{m}", pid, inp))
         ops = []
         for inst, pid, inp in members:
@@ -118,6 +130,15 @@ def oracle(c, p, out):
             w = engcheck.check_sets(PROGS[pid], d, engcheck.spec_sets(PROGS[pid], inp))
             if w: return f"instance {inst} of {pid} run concurrently with {len(dumps) - 1} others: " + w
         return None
+    for dmp in dumps[:2]:
+        _, mult = engcheck.dump_sets(dmp)
+        for r, dcl in enumerate(p["rels"]):
+            if dcl.get("lat"):
+                keys = {}
+                for t, m in mult.get(r, {}).items():
+                    k = eng.split_key(t); keys[k] = keys.get(k, 0) + m
+                bad = [k for k, m in keys.items() if m != 1]
+                if bad: return f"constructed in pool {c.meta['abc'][0]}, run in pool {c.meta['abc'][1]}: lattice r{r} has {keys[bad[0]]} rows for key ({bad[0]}) ({len(bad)} such keys)"
     w = engcheck.check_sets(p, dumps[0], engcheck.spec_sets(p, c.meta["inp"]))
     if w: return f"constructed in pool {c.meta['abc'][0]}, run in pool {c.meta['abc'][1]}: " + w
     w = engcheck.check_sets(p, dumps[1], engcheck.spec_sets(p, c.meta["union"]))
@@ -159,5 +180,6 @@ def check(tier, replay=None):
                                  build=build, oracle=oracle, canon=canon, nbins=1, what="instances across pools and concurrent instances",
                                  rule="parallel programs constructed / run / re-run (after pushes) in pools of different sizes (a,b,c) in {1,2,3,8,16}^3; groups of instances of the "
                                       "same and of different generated types run at the same time on OS threads; every instance must compute what it computes alone; stress programs with 1500 rows "
-                                      "(per-thread no-index shards) and 480 keyed rows (hash-sharded indices) in pools of 3, 5, 6, 7 threads created in pools of other sizes; "
+                                      "(per-thread no-index shards) and 480 keyed rows (hash-sharded indices) in pools of 3, 5, 6, 7 threads created in pools of other sizes; a lattice with 5000 keys each derived 4 times in one iteration, "
+                                      "constructed in a pool of 1 / 2 / 8 threads and run in 4 / 8 / 16 (one row per key); "
                                       "fresh-process scenarios: two instances constructed and run at the same time in pools of different sizes, the second 0-32 ms later")
